@@ -30,8 +30,8 @@ ASSUMPTIONS = ['scale factors are powers of two, so the transformed input is exa
                'float comparisons use 1e-10 relative tolerance (summation order inside pandas may differ after a renaming)']
 EXHAUSTIVE = {'quick': False, 'thorough': False}
 HASH_SEEDS = {'quick': [0], 'thorough': [0, 1, 2]}
-MINIMA = {'quick': {'impact_tie_cases': 8, 'pairs_with_restated_rows': 30, 'pairs_compared': 300, 'designs_compared': 400, 'distinct_nontrivial': 150, 'set:transforms': 6},
-          'thorough': {'impact_tie_cases': 100, 'pairs_with_restated_rows': 400, 'pairs_compared': 4000, 'designs_compared': 6000, 'distinct_nontrivial': 2000, 'set:transforms': 6}}
+MINIMA = {'quick': {'text_label_dates': 10, 'share_bound_on_library_value': 15, 'impact_tie_cases': 8, 'pairs_with_restated_rows': 30, 'pairs_compared': 300, 'designs_compared': 400, 'distinct_nontrivial': 150, 'set:transforms': 6},
+          'thorough': {'text_label_dates': 150, 'share_bound_on_library_value': 200, 'impact_tie_cases': 100, 'pairs_with_restated_rows': 400, 'pairs_compared': 4000, 'designs_compared': 6000, 'distinct_nontrivial': 2000, 'set:transforms': 6}}
 N = {'quick': 420, 'thorough': 5000}
 CASE_TIMEOUT = {'quick': 300, 'thorough': 900}
 
@@ -129,6 +129,8 @@ def run_case(spec):
   cls = 'duplicates' if spec['idx'] % 17 == 0 else None
   if kind in ('date_shift', 'all') and r.random() < 0.4:
     dstyle = r.choice(['tz', 'timeofday'])
+  elif kind == 'shuffle' and r.random() < 0.35:
+    dstyle = 'dmy'          # day/month/year text labels
   else:
     dstyle = None
   case = sl.make_case(r, g, G, id_style=id_style, cls=cls, elig_extra='none', date_style=dstyle,
@@ -163,6 +165,29 @@ def run_case(spec):
     pos = min(order_.index(ids_[a]), order_.index(ids_[b]))
     kw['n_geos_max'] = max(2, pos + 1)
     counters_extra = {'impact_tie_cases': 1}
+  elif kind in ('rename', 'all') and spec['idx'] % 5 in (3, 4) and G >= 4 and cls is None:
+    # the upper share bound sits EXACTLY (bit for bit) on a share as the library computes it for this presentation:
+    # that of one geo (decides geos_too_large in both searches) or of the best unconstrained treatment group
+    counters_extra = {}
+    kw = case['params']
+    kw.pop('treatment_share_range', None)
+    b0 = util.call(sl.build, case, None, None, True)
+    if b0.ok:
+      data0, _, mm0 = b0.value
+      hi = None
+      if which == 'exhaustive' and r.random() < 0.5:
+        res0 = util.call(mm0.exhaustive_search)
+        if res0.ok and res0.value:
+          d0 = res0.value[0]
+          gi0 = list(data0.geo_index)
+          idx0 = {gi0.index(gid) for gid in d0.treatment_geos}
+          hi = float(data0.aggregate_geo_share(idx0))
+      if hi is None:
+        shares0 = [float(v) for v in data0.geo_share]
+        hi = r.choice(sorted(shares0)[len(shares0) // 2:])
+      if 0 < hi < 1:
+        kw['treatment_share_range'] = (1e-9, hi)
+        counters_extra = {'share_bound_on_library_value': 1}
   else:
     counters_extra = {}
   if kind not in ('shuffle', 'all'):
@@ -170,6 +195,7 @@ def run_case(spec):
   tcase, idmap, c = transform(case, r, kind)
   desc = sl.describe(case, with_frame=False)
   counters = collections.Counter(counters_extra)
+  counters['text_label_dates'] += dstyle == 'dmy'
   violations = []
   a = sl.run_search(case, which)
   b = sl.run_search(tcase, which)
